@@ -875,6 +875,27 @@ def kRetAttr : List Bytes :=
    [115, 105, 103, 110, 101, 120, 116],
    [122, 101, 114, 111, 101, 120, 116]]
 
+/-- enum.ParamAttr: the parameter attributes that are bare keywords (`i8* nocapture readonly %p`; ir.Param.Attrs, a LIST: repeats and any order are kept). `allocalign` and
+    `allocptr` are outside the fragment: behind a type the reader of types takes ` a` for the start of ` addrspace(` -/
+def kParamAttr : List Bytes :=
+  [[105, 109, 109, 97, 114, 103],
+   [105, 110, 114, 101, 103],
+   [110, 101, 115, 116],
+   [110, 111, 97, 108, 105, 97, 115],
+   [110, 111, 99, 97, 112, 116, 117, 114, 101],
+   [110, 111, 102, 114, 101, 101],
+   [110, 111, 110, 110, 117, 108, 108],
+   [110, 111, 117, 110, 100, 101, 102],
+   [114, 101, 97, 100, 110, 111, 110, 101],
+   [114, 101, 97, 100, 111, 110, 108, 121],
+   [114, 101, 116, 117, 114, 110, 101, 100],
+   [115, 105, 103, 110, 101, 120, 116],
+   [115, 119, 105, 102, 116, 97, 115, 121, 110, 99],
+   [115, 119, 105, 102, 116, 101, 114, 114, 111, 114],
+   [115, 119, 105, 102, 116, 115, 101, 108, 102],
+   [119, 114, 105, 116, 101, 111, 110, 108, 121],
+   [122, 101, 114, 111, 101, 120, 116]]
+
 def kLead : List Bytes := kLinkage ++ kPreemption ++ kVisibility ++ kDLL ++ kCallingConv ++ kRetAttr
 
 /-! the clauses of a function header BEHIND the parameter list (ir/func.go headerString): `unnamed_addr` / `local_unnamed_addr`, `addrspace(N)`, the function attributes
@@ -1014,6 +1035,14 @@ structure Func where
   lead : List Nat := []
   /-- the clauses behind the parameter list (`… @f(…) unnamed_addr addrspace(1) nounwind section "s" align 8 gc "g" {`), in the order written -/
   tail : HTail := {}
+  /-- the attributes of each parameter (`i8* nocapture readonly %p`), as positions in `kParamAttr`, in the order written; one list per parameter -/
+  pattrs : List (List Nat) := params.map (fun _ => [])
+
+/-- the parameters with their attributes -/
+def zipA : List (Ty × Ident) → List (List Nat) → List ((Ty × Ident) × List Nat)
+  | [], _ => []
+  | p :: ps, [] => (p, []) :: zipA ps []
+  | p :: ps, a :: as => (p, a) :: zipA ps as
 
 
 /-- the family a position of `kLead` belongs to: linkage 0, preemption 1, visibility 2, DLL storage class 3, calling convention 4, return attribute 5 -/
@@ -1028,14 +1057,15 @@ def leadFamily (i : Nat) : Nat :=
 def sDefine : Bytes := [100, 101, 102, 105, 110, 101, 32]     -- "define "
 def sOpen : Bytes := [41, 32, 123]                             -- ") {"
 
-def paramsString : List (Ty × Ident) → Bytes
+/-- `T [attributes] %x` for every parameter (ir/helper.go Param.LLString) -/
+def paramsString : List ((Ty × Ident) × List Nat) → Bytes
   | [] => []
-  | [(t, i)] => tyString t ++ [32] ++ identString i
-  | (t, i) :: p :: ps => tyString t ++ [32] ++ identString i ++ sComma ++ paramsString (p :: ps)
+  | [(p, a)] => tyString p.1 ++ [32] ++ flagsString kParamAttr a ++ identString p.2
+  | (p, a) :: q :: ps => tyString p.1 ++ [32] ++ flagsString kParamAttr a ++ identString p.2 ++ sComma ++ paramsString (q :: ps)
 
 /-- the header from the return type on -/
 def headerRest (f : Func) : Bytes :=
-  tyString f.ret ++ [32] ++ Enc.globalName f.name ++ [40] ++ paramsString f.params ++ [41, 32] ++ itemsString (itemsOf f.tail) ++ [123]
+  tyString f.ret ++ [32] ++ Enc.globalName f.name ++ [40] ++ paramsString (zipA f.params f.pattrs) ++ [41, 32] ++ itemsString (itemsOf f.tail) ++ [123]
 
 def headerString (f : Func) : Bytes := sDefine ++ flagsString kLead f.lead ++ headerRest f
 
@@ -1093,7 +1123,7 @@ def tailDecl : List HItem → Bytes
 
 /-- a function without blocks is a declaration (ir/func.go LLString): one line, the parameters with their names -/
 def declString (f : Func) : Bytes :=
-  sDeclare ++ flagsString kLead f.lead ++ tyString f.ret ++ [32] ++ Enc.globalName f.name ++ [40] ++ paramsString f.params ++ [41] ++ tailDecl (itemsOf f.tail)
+  sDeclare ++ flagsString kLead f.lead ++ tyString f.ret ++ [32] ++ Enc.globalName f.name ++ [40] ++ paramsString (zipA f.params f.pattrs) ++ [41] ++ tailDecl (itemsOf f.tail)
 
 def printFunc (useHex : Int → Bool) (f : Func) : List Bytes :=
   if f.blocks.isEmpty then [declString f]
@@ -1107,17 +1137,18 @@ def flatten : List Bytes → Bytes
 
 /-! readers -/
 
-def readParams : Nat → Bytes → Option (List (Ty × Ident) × Bytes)
+def readParams : Nat → Bytes → Option (List ((Ty × Ident) × List Nat) × Bytes)
   | 0, _ => none
   | f + 1, s =>
     match TyParse.parseTy (tyFuel s) s with
-    | some (t, 32 :: r) =>
+    | some (t, 32 :: r0) =>
+      let (a, r) := readFlags (r0.length + 1) kParamAttr r0
       (match readIdent r with
        | some (i, 44 :: 32 :: r') =>
          (match readParams f r' with
-          | some (ps, r'') => some ((t, i) :: ps, r'')
+          | some (ps, r'') => some (((t, i), a) :: ps, r'')
           | none => none)
-       | some (i, r') => some ([(t, i)], r')
+       | some (i, r') => some ([((t, i), a)], r')
        | none => none)
     | _ => none
 
@@ -1160,7 +1191,7 @@ def readTail (s : Bytes) : Option HTail :=
   | _ => none
 
 /-- `define [keywords] T @name(params) [clauses] {`: (keywords as written, return type, name, parameters, clauses as written) -/
-def readHeader (s : Bytes) : Option (List Nat × Ty × Bytes × List (Ty × Ident) × HTail) :=
+def readHeader (s : Bytes) : Option (List Nat × Ty × Bytes × List ((Ty × Ident) × List Nat) × HTail) :=
   match TyParse.stripPrefix sDefine s with
   | none => none
   | some r00 =>
@@ -1315,7 +1346,7 @@ def readBlocks : Nat → List Bytes → Option (List Block)
            | none => none)
 
 /-- `declare T @f(params)`: read as the header of a definition -/
-def readDecl (s : Bytes) : Option (List Nat × Ty × Bytes × List (Ty × Ident) × HTail) :=
+def readDecl (s : Bytes) : Option (List Nat × Ty × Bytes × List ((Ty × Ident) × List Nat) × HTail) :=
   match TyParse.stripPrefix sDeclare s with
   | some r => readHeader (sDefine ++ r ++ [32, 123])
   | none => none
@@ -1323,10 +1354,10 @@ def readDecl (s : Bytes) : Option (List Nat × Ty × Bytes × List (Ty × Ident)
 def readFunc (ls : List Bytes) : Option Func :=
   match ls with
   | [] => none
-  | [h] => (match readDecl h with | some (lead, rt, n, ps, tl) => some ⟨rt, n, ps, [], lead, tl⟩ | none => none)
+  | [h] => (match readDecl h with | some (lead, rt, n, ps, tl) => some ⟨rt, n, ps.map (·.1), [], lead, tl, ps.map (·.2)⟩ | none => none)
   | h :: rest =>
     match readHeader h, readBlocks (rest.length + 1) rest with
-    | some (lead, rt, n, ps, tl), some bs => some ⟨rt, n, ps, bs, lead, tl⟩
+    | some (lead, rt, n, ps, tl), some bs => some ⟨rt, n, ps.map (·.1), bs, lead, tl, ps.map (·.2)⟩
     | _, _ => none
 
 /-! ### translation (asm/local.go) -/
@@ -1814,10 +1845,16 @@ def tailOK (t : HTail) : Bool :=
     decide (t.align < 2 ^ 64)
 
 /-- syntactic well-formedness: non-empty names, IDs within the parser's range, arguments matching the rows, one terminator per block (last) -/
-def wfSyn (f : Func) : Bool :=
+def wfSyn0 (f : Func) : Bool :=
   !f.name.isEmpty && f.params.all (fun p => identOKB p.2) && f.blocks.all blockOKB && leadOK f.lead &&
   -- (no header keyword followed by a space starts the text of the return type: decidable side condition of the reader of the keywords)
   kLead.all (fun k => (TyParse.stripPrefix (k ++ [32]) (headerRest f)).isNone) && tailOK f.tail
+
+/-- one list of attribute positions per parameter, the positions within `kParamAttr` -/
+def pattrsOKB (f : Func) : Bool :=
+  f.pattrs.length == f.params.length && f.pattrs.all (fun a => a.all (fun i => decide (i < kParamAttr.length)))
+
+def wfSyn (f : Func) : Bool := wfSyn0 f && pattrsOKB f
 
 /-- the type written in front of every local operand is the type of that operand's definition -/
 def consistentOp (ge : GEnv) (e : List (Ident × Ty)) (t : Ty) : Operand → Bool
